@@ -319,7 +319,7 @@ fn replay(v: &Value) -> Option<String> {
 fn main() {
     let ctx = Ctx::new("C16", "release");
     if let Some(v) = ctx.replay_case() {
-        guard::enter(&v.to_string());
+        let _guard_scope = guard::scoped(&v.to_string());
         ctx.finish_replay(catch(|| replay(&v)).unwrap_or_else(|p| Some(format!("panic: {p}"))));
     }
     ctx.rule("Sum / SumBuffers: input count 0..=3 x buffers per input 0..=3 (every combination) x output buffers 0..=3 x 10 wrapper types (plain, BoxedNode, BoxedNodeSend, Box<Box<T>>, &mut T, fn pointer, Box<dyn Fn>, Box<dyn FnMut>, nested GraphNode, nested GraphNode whose inner input/output nodes have different buffer counts) x 3 consecutive calls; Pass: 0 or 1 input likewise; Delay: per-channel ring lengths over {1,2,63,64,65,130}^(1..=2 channels) x input buffers 0..=3 x output buffers 0..=3 x 4 wrappers x 4 calls with coded initial ring contents; signal node: Box<dyn Signal<Frame=[f32;2]>> over an instrumented source, output buffers 0..=3, 3 calls, 64 pulls per call; sources write position-coded dyadic values (sums exact in f32), outputs start as a sentinel; oracle = per-node reference function; soak probes: 300 consecutive calls of delay nodes (4 ring-length sets) and of the signal node; distinct by configuration");
@@ -331,7 +331,7 @@ fn main() {
                 for n_out in 0..=3usize {
                     for w in 0..WRAPPERS.len() {
                         let case = json!({"sys":"stateless","kind":format!("{kind:?}"),"wrapper":w,"in_bufs":in_bufs,"n_out":n_out});
-                        guard::enter(&case.to_string());
+                        let _guard_scope = guard::scoped(&case.to_string());
                         evals += 1;
                         match catch(|| stateless_case(kind, w, &in_bufs, n_out)) {
                             Ok(None) => ctx.observe(common::fnv_str(&case.to_string())),
@@ -351,7 +351,7 @@ fn main() {
                 for n_out in [1usize, 3] {
                     for w in [0usize, 8] {
                         let case = json!({"sys":"stateless","kind":format!("{kind:?}"),"wrapper":w,"in_bufs":in_bufs,"n_out":n_out});
-                        guard::enter(&case.to_string());
+                        let _guard_scope = guard::scoped(&case.to_string());
                         evals += 1;
                         match catch(|| stateless_case(kind, w, &in_bufs, n_out)) {
                             Ok(None) => ctx.observe(common::fnv_str(&case.to_string())),
@@ -376,7 +376,7 @@ fn main() {
             for n_out in 0..=3usize {
                 for w in 0..4usize {
                     let case = json!({"sys":"delay","lens":lens,"n_in":n_in,"n_out":n_out,"wrapper":w});
-                    guard::enter(&case.to_string());
+                    let _guard_scope = guard::scoped(&case.to_string());
                     evals += 1;
                     match catch(|| delay_case(lens, n_in, n_out, w)) {
                         Ok(None) => ctx.observe(common::fnv_str(&case.to_string())),
@@ -390,7 +390,7 @@ fn main() {
     for n_out in 0..=3usize {
         for w in 0..2usize {
             let case = json!({"sys":"signal","n_out":n_out,"wrapper":w});
-            guard::enter(&case.to_string());
+            let _guard_scope = guard::scoped(&case.to_string());
             evals += 1;
             match catch(|| signal_case(n_out, w)) {
                 Ok(None) => ctx.observe(common::fnv_str(&case.to_string())),
@@ -402,7 +402,7 @@ fn main() {
     // soak probes: many consecutive process calls
     for lens in [vec![1usize], vec![63, 130], vec![64, 65], vec![7, 200]] {
         let case = json!({"sys":"delay_soak","lens":lens});
-        guard::enter(&case.to_string());
+        let _guard_scope = guard::scoped(&case.to_string());
         evals += 1;
         if let Some((k, m)) = delay_case_calls(&lens, 2, 2, 0, 300) {
             ctx.violation(&k, case, format!("300 consecutive calls: {m}"), None);
